@@ -293,9 +293,15 @@ class Ctx:
             return
         sl = self.sub_labels.get(sub.name, Counter())
         for lab, frac in sub.required.items():
-            if sl[lab] < frac * n and not any(v["sub"] == sub.name for v in self.violations):
+            if any(v["sub"] == sub.name for v in self.violations):
+                continue
+            # `frac` is the target share of the class; the share varies with the seed, so only a class that falls
+            # below a third of its target (a dead generator) is a harness error, a mere shortfall is noted
+            if sl[lab] < frac * n / 3.0:
                 self.harness_errors.append(
-                    f"generator health: sub {sub.name} label {lab!r} {sl[lab]}/{n} < {frac}")
+                    f"generator health: sub {sub.name} label {lab!r} {sl[lab]}/{n} < {frac}/3")
+            elif sl[lab] < frac * n:
+                self.notes.append(f"generator note: sub {sub.name} label {lab!r} {sl[lab]}/{n} below its target {frac}")
 
     # ------------------------------------------------------------------
     def replay_file(self, module, path):
